@@ -138,6 +138,10 @@ class Ctx:
         for ln in lines:
             if '\n' in ln:
                 raise ValueError('newline in protocol line')
+        for _attempt in range(60):      # the binary is briefly absent while another build relinks it
+            if os.path.exists(DRIVER):
+                break
+            time.sleep(2)
         p = subprocess.run([DRIVER], input='\n'.join(lines) + '\n',
                            capture_output=True, text=True)
         out = p.stdout.split('\n')
